@@ -178,4 +178,13 @@ MUTANTS = [
      "        utc_hours: u8,\n        utc_mins: u8,\n    },\n    MemberAttrName(String),", "        utc_hours: u8,\n        #[cfg_attr(feature = \"serde\", serde(skip))]\n        utc_mins: u8,\n    },\n    MemberAttrName(String),"),
     ("m57-serde-request-id-not-serialised", ["C20"], L,
      "    /// ID of the request\n    pub request_id: u32,", "    /// ID of the request\n    #[cfg_attr(feature = \"serde\", serde(skip_serializing, default))]\n    pub request_id: u32,"),
+    # ---- C04 again: bytes a library may come to accept must still never be skipped (both parsers alike, so C05 is blind)
+    ("m58-unassigned-value-tags-skipped-as-elements", ["C04"], [
+        (P, "                tag @ 0x10..=0x4a => self.parse_value(tag)?,\n", "                tag @ 0x10..=0x4a => self.parse_value(tag)?,\n                0x4b..=0x7f => {\n                    let _ = self.reader.read_name()?;\n                    let _ = self.reader.read_value()?;\n                }\n"),
+        (P, "                tag @ 0x10..=0x4a => self.parse_value(tag).await?,\n", "                tag @ 0x10..=0x4a => self.parse_value(tag).await?,\n                0x4b..=0x7f => {\n                    let _ = self.reader.read_name().await?;\n                    let _ = self.reader.read_value().await?;\n                }\n"),
+    ]),
+    ("m59-later-registered-delimiters-skipped", ["C04"], [
+        (P, "                tag @ 0x10..=0x4a => self.parse_value(tag)?,\n", "                tag @ 0x10..=0x4a => self.parse_value(tag)?,\n                0x06..=0x0a => {}\n"),
+        (P, "                tag @ 0x10..=0x4a => self.parse_value(tag).await?,\n", "                tag @ 0x10..=0x4a => self.parse_value(tag).await?,\n                0x06..=0x0a => {}\n"),
+    ]),
 ]
